@@ -487,6 +487,15 @@ func runC04(c *Ctx) {
 	ruleSASLDecode(c)
 	R.Rule("R-status-fill-shape", "E1", "in LMTP every accepted recipient occurrence gets a reply: fillRemaining loops a non-blocking send over every recipient channel until it is full", 2)
 	ruleFillShape(c)
+	ruleFillValue(c)
+	R.Rule("R-replies-for-accepted-only", "E3+E1", "the recipient list that drives the per-recipient final replies (and the 'no recipients' refusal of DATA/BDAT) grows only on the nil-error edge of Session.Rcpt", 2)
+	for _, site := range c.Sites("st:Conn.recipients") {
+		if _, _, v := storedField(site); isNilConst(v) {
+			continue
+		}
+		c.obUnreach("recipients=append", site, `invoke:Session.Rcpt != nil`)
+		R.Ob(c.siteKey(site, "recipients append after Session.Rcpt"), c.P.InstrPos(site), s.SeenBefore(site)[lRcpt], "a recipient is recorded before the backend was asked: a refused recipient still gets a final reply (250 for a refused mailbox, every later reply shifted)")
+	}
 	ruleResetEffects(c)
 	R.Rule("R-state-writers", "who-may-write", "the delivery result channel is installed only together with the pipe in handleBdat", 1)
 	c.obWriters("Conn.dataResult", "one result channel per chunked message", "(*Conn).handleBdat")
